@@ -434,6 +434,8 @@ impl CoreInner {
 		//   Thread B (flush):  holds manifest.write, waits imm.write
 		// By acquiring manifest.read first, we ensure no circular wait.
 		let table_id = self.level_manifest.read()?.next_table_id();
+		#[cfg(surrealkv_verif)]
+		crate::verif::yield_point("rotate:swapped");
 		let mut immutable_memtables = self.immutable_memtables.write()?;
 		immutable_memtables.add(table_id, flushed_wal_number, Arc::clone(&flushed_memtable));
 
@@ -1031,6 +1033,10 @@ impl CommitEnv for LsmCommitEnv {
 		crate::verif::fail_point("commit.apply")?;
 		// Try to add to current memtable
 		let result = {
+			#[cfg(surrealkv_verif)]
+			crate::verif::acquire_point("memtable:read-lock", &|| {
+				self.core.active_memtable.try_read().is_err()
+			});
 			let active_memtable = self.core.active_memtable.read()?;
 			self.add_to_active(&active_memtable, batch)
 		};
@@ -1051,6 +1057,10 @@ impl CommitEnv for LsmCommitEnv {
 				}
 
 				// Retry on new memtable - must succeed
+				#[cfg(surrealkv_verif)]
+				crate::verif::acquire_point("memtable:read-lock", &|| {
+					self.core.active_memtable.try_read().is_err()
+				});
 				let active_memtable = self.core.active_memtable.read()?;
 				self.add_to_active(&active_memtable, batch)
 			}
